@@ -358,6 +358,9 @@ func (c *Checkpointer) calculateSafeProcessedSeq() SequenceID {
 
 func (c *Checkpointer) _calculateSafeProcessedSeq() SequenceID {
 	idx := c._calculateSafeExpectedSeqsIdx()
+	if base.VerifOn {
+		base.VerifEmit(verifObj(c), "Sort", "E", verifSeqs(c.expectedSeqs), "P", verifSeqSet(c.processedSeqs))
+	}
 	if idx == -1 {
 		return c.lastCheckpointSeq
 	}
